@@ -12,6 +12,7 @@ import TensoraVerif.Model.GenerateIR
 import TensoraVerif.Lemmas.PeepholeExact
 import TensoraVerif.Model.Taco
 import TensoraVerif.Model.Scoped
+import TensoraVerif.Model.PeepTyped
 import TensoraVerif.Lemmas.StoreCertGenerate
 import TensoraVerif.Lemmas.LowerableComplete
 import TensoraVerif.Lemmas.DimDeadGenerate
@@ -413,6 +414,11 @@ def handle (cmd : String) (args : List Sexp) : Sexp :=
     -- per function of a module: the decidable side condition of `peephole_stmt_sound_stable`
     match IR.Wire.moduleOf m with
     | some m => .list (m.defs.map fun f => Sexp.ofBool (IR.NoFloatIdentityS f.body))
+    | none => Sexp.mk "bad-request" [.str "unknown-constructor"]
+  | "CERT", [.atom "noretype", m] =>
+    -- per function of a module: the decidable side condition of `peephole_func_sound_typed` (typed stable fragment)
+    match IR.Wire.moduleOf m with
+    | some m => .list (m.defs.map fun f => Sexp.ofBool f.noRetype)
     | none => Sexp.mk "bad-request" [.str "unknown-constructor"]
   | "CERT", [.atom "deadvar", f, .str x] =>
     match IR.Wire.funcOf f with
